@@ -10,11 +10,11 @@ open AsamCmp AsamCmp.Src AsamCmp.SrcGen
 
 theorem decode_src_model {F : Type} (t : Table) (pre b post : Bytes) (fuel : Nat) (ext : Bytes → Nat → Nat → List F)
     (hT : C17b.TableOk t) (hR : TableReg t) (hpre : 0 < pre.length) (h8 : 8 ≤ b.length) (h0 : byteAt b 0 ≠ 0)
-    (hlen : b.length < 2 ^ 31) (hmem : (pre ++ b ++ post).length < 2 ^ 63) (hf : b.length ≤ fuel) :
+    (hmem : (pre ++ b ++ post).length < 2 ^ 63) (hf : b.length ≤ fuel) :
     ∃ t', ∃ outs : List PktOut,
       Decoder_decode_obj fuel (tblSt t) (pre ++ b ++ post) pre.length b.length ext = some (tblSt t', outs.map Sum.inl) ∧
       C17b.TableOk t' ∧ t'.abs = (decode t.abs (some b)).1 ∧ outs.map toPacket = (decode t.abs (some b)).2 := by
-  obtain ⟨outs, h1, h2⟩ := decode_src t pre b post fuel ext hT hR hpre h8 h0 hlen hmem hf
+  obtain ⟨outs, h1, h2⟩ := decode_src t pre b post fuel ext hT hR hpre h8 h0 hmem hf
   obtain ⟨k1, k2, k3⟩ := C17b.decodeLL_refines t (some b) hT
   exact ⟨_, outs, h1, k1, k2, by rw [h2, k3]⟩
 
